@@ -247,3 +247,17 @@ _EXTRA7 = {
 }
 for _k, _v in _EXTRA7.items():
     PROPS[_k]['text'] = PROPS[_k]['text'].rstrip() + _v
+
+_EXTRA8 = {
+ 'C01': ' The 8-bit blend functions get the same degree analysis (C01-R12); source and mask are taken for one pixbuf only when their strides agree too (C01-R13, defect F28 - fixed).',
+ 'C02': ' Same-buffer detection compares the row strides as well as the bits pointers (C02-R22, defect F28 - fixed).',
+ 'C03': ' The destination alpha map\'s clip is translated by the offset its bounds are placed at (C03-R12; the tree does not: known finding F26); shortcuts that write the destination directly are taken only without an alpha map (C03-R13, defects F24/F27 - fixed); no equality test with a value outside the expression\'s range (C03-R14, defect F25 - fixed).',
+ 'C05': ' A one-rectangle region built from the caller\'s coordinates is validated first (C05-R11, defect F23 - fixed).',
+ 'C06': ' Or-combined range tests are compared with "<" only (C06-R9, defect F22 - fixed).',
+ 'C07': ' Or-combined range tests: the or of differences is negative iff one is, but zero only if all are, so "<= 0" is not a disjunction (C07-R13, defect F22 - fixed).',
+ 'C10': ' A shortcut that is handed the raw bits pointer is guarded by read_func == write_func == NULL (C10-R14, defect F24 - fixed).',
+ 'C12': ' No equality test compares a shifted / masked / widened value with a constant outside its range (C12-R11, defect F25 - fixed); the direct trapezoid route is taken only without an alpha map (C12-R12, defect F27 - fixed).',
+ 'C19': ' pixman_image_fill_boxes and every other exported function with a compositing route and a direct-write shortcut take the shortcut only for a destination without alpha map and, for raw pointers, without accessors (C19-R13, defects F24/F27 - fixed).',
+}
+for _k, _v in _EXTRA8.items():
+    PROPS[_k]['text'] = PROPS[_k]['text'].rstrip() + _v
